@@ -141,11 +141,11 @@ class Scan:
 
     # ------------------------------------------------------------------ helpers
     def add(self, file, name, site, kind, key, after):
-        k = (name, kind, site) if kind == "inPlaceClassAttr" else (name, kind)   # one row per in-place write SITE
+        k = (name, kind, site) if kind in ("inPlaceClassAttr", "inPlaceCacheEntry") else (name, kind)   # one row per in-place write SITE
         if k in self.rows:
             r = self.rows[k]
             r["writtenAfterDef"] = r["writtenAfterDef"] or after
-            order = ["className", "otherClass", "unknown", "classIdentity", "fieldIdentity", "globalConfig", "none"]
+            order = ["className", "otherClass", "partialArgs", "unknown", "classIdentity", "fieldIdentity", "globalConfig", "none"]
             if order.index(key) < order.index(r["key"]):
                 r["key"], r["site"] = key, site
             elif not r["site"]:
@@ -246,7 +246,180 @@ class Scan:
         self.pass_lru()
         self.pass_class_attr_writes()
         self.pass_inplace()
+        self.pass_key_completeness()
+        self.pass_cache_entry_mutation()
         return sorted(self.rows.values(), key=lambda r: (r["file"], r["name"], r["kind"], r["site"]))
+
+    # ------------------------------------------------------------------ data/control dependencies
+    @staticmethod
+    def _names(e):
+        return {n.id for n in ast.walk(e) if isinstance(n, ast.Name)} if e is not None else set()
+
+    def dependencies(self, f):
+        """flow-insensitive dependencies of the local names of `f` (data + control), and every subscript
+        store with the control context it executes under"""
+        deps, stores = {}, []
+        names = self._names
+
+        def bind(t, src):
+            if isinstance(t, ast.Name):
+                deps.setdefault(t.id, set()).update(src)
+            elif isinstance(t, (ast.Tuple, ast.List)):
+                for x in t.elts:
+                    bind(x, src)
+            elif isinstance(t, (ast.Subscript, ast.Attribute)):
+                base = t.value
+                while isinstance(base, (ast.Subscript, ast.Attribute)):
+                    base = base.value
+                if isinstance(base, ast.Name):
+                    deps.setdefault(base.id, set()).update(src | names(getattr(t, "slice", None)))
+
+        def visit(stmts, ctrl):
+            for st in stmts:
+                if isinstance(st, (ast.FunctionDef, ast.AsyncFunctionDef, ast.ClassDef)):
+                    continue
+                if isinstance(st, ast.Assign):
+                    for t in st.targets:
+                        bind(t, names(st.value) | ctrl)
+                        if isinstance(t, ast.Subscript):
+                            stores.append((t, st.value, set(ctrl)))
+                elif isinstance(st, (ast.AugAssign, ast.AnnAssign)):
+                    bind(st.target, names(st.value) | ctrl | (names(st.target) if isinstance(st, ast.AugAssign) else set()))
+                elif isinstance(st, ast.Expr) and isinstance(st.value, ast.Call) \
+                        and isinstance(st.value.func, ast.Attribute) and st.value.func.attr in MUTATORS:
+                    bind(st.value.func.value if not isinstance(st.value.func.value, ast.Name)
+                         else st.value.func.value, names(st.value) | ctrl)
+                elif isinstance(st, ast.If):
+                    c2 = ctrl | names(st.test)
+                    visit(st.body, c2)
+                    visit(st.orelse, c2)
+                elif isinstance(st, (ast.For, ast.AsyncFor)):
+                    bind(st.target, names(st.iter) | ctrl)
+                    c2 = ctrl | names(st.iter)
+                    visit(st.body, c2)
+                    visit(st.orelse, c2)
+                elif isinstance(st, ast.While):
+                    c2 = ctrl | names(st.test)
+                    visit(st.body, c2)
+                    visit(st.orelse, c2)
+                elif isinstance(st, ast.Try):
+                    visit(st.body, ctrl)
+                    for h in st.handlers:
+                        visit(h.body, ctrl)
+                    visit(st.orelse, ctrl)
+                    visit(st.finalbody, ctrl)
+                elif isinstance(st, (ast.With, ast.AsyncWith)):
+                    for it in st.items:
+                        if it.optional_vars is not None:
+                            bind(it.optional_vars, names(it.context_expr) | ctrl)
+                    visit(st.body, ctrl)
+        visit(f.node.body, set())
+
+        def closure(start):
+            seen, todo = set(), list(start)
+            while todo:
+                n = todo.pop()
+                if n in seen:
+                    continue
+                seen.add(n)
+                todo.extend(deps.get(n, ()))
+            return seen
+        return closure, stores
+
+    def pass_key_completeness(self):
+        """a memo `REG[key] = value` written in a function must be keyed by every parameter the value
+        depends on (through data or control flow); otherwise calls that differ in the omitted argument
+        share an entry"""
+        for f in self.funcs:
+            closure, stores = self.dependencies(f)
+            params = set(f.params) - {"self"}
+            for t, value, ctrl in stores:
+                ref = self.registry_ref(t.value)
+                if not ref:
+                    continue
+                vparams = closure(self._names(value) | ctrl) & params
+                kparams = closure(self._names(t.slice)) & params
+                missing = vparams - kparams
+                if missing:
+                    file = (self.module_objs.get(ref) or self.class_attrs.get(ref) or (f.file,))[0]
+                    r = self.rows.get((ref, "dict"))
+                    if r is not None:
+                        r["key"], r["site"] = "partialArgs", f.qual
+                    else:
+                        self.add(file, ref, f.qual, "dict", "partialArgs", True)
+
+    def pass_cache_entry_mutation(self):
+        """an object handed out by a cache (a registry entry returned by its memo function, the result of
+        an lru_cache function) must not be mutated by its receivers: the entry itself would change"""
+        cache_fns = {}
+        for f in self.funcs:
+            if any("lru_cache" in ast.dump(d) or "'cache'" in ast.dump(d) for d in f.node.decorator_list):
+                cache_fns[f.name] = f.name
+                continue
+            stored = {}
+            for n in f.body_nodes():
+                if isinstance(n, ast.Assign):
+                    for t in n.targets:
+                        if isinstance(t, ast.Subscript) and self.registry_ref(t.value) and isinstance(n.value, ast.Name):
+                            stored[n.value.id] = self.registry_ref(t.value)
+            for n in f.body_nodes():
+                if isinstance(n, ast.Return) and n.value is not None:
+                    v = n.value
+                    if isinstance(v, ast.Subscript) and self.registry_ref(v.value):
+                        cache_fns[f.name] = self.registry_ref(v.value)
+                    elif isinstance(v, ast.Name) and v.id in stored:
+                        cache_fns[f.name] = stored[v.id]
+
+        def cache_expr(e, aliases):
+            if isinstance(e, ast.Call):
+                fn = e.func
+                n = fn.id if isinstance(fn, ast.Name) else fn.attr if isinstance(fn, ast.Attribute) else None
+                return cache_fns.get(n)
+            if isinstance(e, ast.IfExp):
+                return cache_expr(e.body, aliases) or cache_expr(e.orelse, aliases)
+            if isinstance(e, ast.BoolOp):
+                for v in e.values:
+                    r = cache_expr(v, aliases)
+                    if r:
+                        return r
+                return None
+            if isinstance(e, ast.Name):
+                return aliases.get(e.id)
+            return None
+
+        for f in self.funcs:
+            aliases = {}
+            changed = True
+            while changed:
+                changed = False
+                for n in f.body_nodes():
+                    if isinstance(n, ast.Assign) and len(n.targets) == 1 and isinstance(n.targets[0], ast.Name):
+                        r = cache_expr(n.value, aliases)
+                        if r and aliases.get(n.targets[0].id) != r:
+                            aliases[n.targets[0].id] = r
+                            changed = True
+            hits = []
+            for n in f.body_nodes():
+                if isinstance(n, ast.Call) and isinstance(n.func, ast.Attribute) and n.func.attr in MUTATORS:
+                    r = cache_expr(n.func.value, aliases)
+                    if r:
+                        hits.append(r)
+                if isinstance(n, (ast.Assign, ast.AugAssign)):
+                    for t in (n.targets if isinstance(n, ast.Assign) else [n.target]):
+                        if isinstance(t, ast.Subscript):
+                            r = cache_expr(t.value, aliases)
+                            if r:
+                                hits.append(r)
+                        if isinstance(n, ast.AugAssign) and isinstance(t, ast.Name) and t.id in aliases:
+                            hits.append(aliases[t.id])
+                if isinstance(n, ast.Delete):
+                    for t in n.targets:
+                        if isinstance(t, ast.Subscript):
+                            r = cache_expr(t.value, aliases)
+                            if r:
+                                hits.append(r)
+            for r in hits:
+                self.add(f.file, r, f.qual, "inPlaceCacheEntry", "classIdentity", True)
 
     def registry_ref(self, e):
         """name of the module-/class-level object an expression refers to, if any"""
